@@ -157,6 +157,7 @@ TEMPLATES = [
     "{n} = {m} + {n}", "{n}%{m}%x = 1", "print *, '{n}', \"{m}\"", "x = 'it''s' // \"a\"\"b\" ! {n}", "external {n}",
     "external :: {n}", "real {n}", "data {n} /1/", "common /blk/ {n}", "!> doc for {n}", "!! more", "!< trailing",
     "integer :: {n} !< doc", "!$omp parallel do", "x = 1; y = 2; end", "a = b &", "  & + c", "&", "call s( &",
+    "implicit &", "  none", "contains &", "conta&", "  &ins", "private &", "  :: {n}", "use &", "  {n}, only: &", "  & {m}", "end &", "  subroutine {n}",
     "#define {N}", "#define {N} 1", "#define {N} {n} + 1 \\", "#define {N}(a,b) a+b", "#define {N}(a) ((a)*\\", "#undef {N}",
     "#if {N}", "#if defined({N})", "#if defined {N} && !defined(FOO)", "#if ({N} > 1) || (defined FOO)", "#if",
     "#ifdef {N}", "#ifndef {N}", "#ifdef", "#elif {N}", "#elif defined({N})", "#elif", "#else", "#endif",
